@@ -351,6 +351,8 @@ structure St where
   /-- identities used by SDK consumers: (partition, consumer id) ↦ (highest offset yielded so far by any
   incarnation, some incarnation commits on polling) -/
   sdkIds : List ((PKey × Nat) × (Option Nat × Bool)) := []
+  /-- line and segment count of the last `stats` answer (C16: compared with the files listed right after) -/
+  lastStats : Option (Nat × Nat) := none
 
 def St.relaxed (st : St) : Bool := st.nowait && !st.settled
 
@@ -1197,6 +1199,14 @@ def stepLine (st : St) (raw : String) : St × List String :=
       (st, msgs0)
     else if toks.headD "" == "ls" then
       let v := if st.relaxed then [] else sizeVsFiles st implS
+      -- C16: the segment count reported by `stats` on the line before = the log files that exist
+      let v := v ++ (match st.lastStats with
+        | some (ln, n) =>
+          let stored := ((parseLs implS).filter (fun f => f.1.startsWith "streams/" && f.1.endsWith ".log")).length
+          if ln + 1 == st.line && !st.relaxed && stored != n then
+            [s!"SPEC-VIOL {st.line} class=figures-segments reported segments={n} stored log files={stored}"]
+          else []
+        | none => [])
       ({ st with specViol := st.specViol + v.length }, msgs0 ++ v)
     else if toks.headD "" == "hold" then ({ st with held := true, settled := !st.nowait, cov := bump st.cov "op:hold" }, msgs0)
     else if toks.headD "" == "release" then ({ st with held := false, settled := true }, msgs0)
@@ -1291,7 +1301,14 @@ def stepLine (st : St) (raw : String) : St × List String :=
     let (asys', effs) := match follow with
       | some a2 => let r := stepA asys' a2; (r.1, effs ++ r.2.2)
       | none => (asys', effs)
-    let st := if st.nowait && toks.headD "" == "send" then { st with settled := false } else st
+    -- no-wait: a send, and a flush or save of what was buffered, hand the batch to the persister task; until
+    -- the harness has settled a poll may see a prefix only (cache evicted, write still queued)
+    let st := if st.nowait && ["send", "flush", "save"].contains (toks.headD "") then { st with settled := false } else st
+    let st := if toks.headD "" == "stats" && implS.startsWith "ok" then
+        match (implS.splitOn " ").findSome? (fun t => if t.startsWith "segments=" then (t.drop 9).toString.toNat? else none) with
+        | some n => { st with lastStats := some (st.line, n) }
+        | none => st
+      else st
     -- the oracles below judge the data plane: they look at authorised core operations only
     let op : Op := match aop, out with
       | .core _ o, .err "unauthenticated" => (match o with | .clock t => .clock t | _ => .stats)
